@@ -174,4 +174,74 @@ class CodonStart(Harness):
                 ("codon_start_qualifier_kept", out["written_codon_start"] == [str(var["codon_start"])])]
 
 
-HARNESSES = [SubLocation(), TTAMarker(), CodonStart()]
+
+class PrepeptideParts(Harness):
+    """leader / core / tail of a precursor peptide as written by Prepeptide.to_biopython: the three locations split the gene's
+    coding bases in reading order, three bases per residue"""
+    pid, name = "C09", "prepeptide_parts"
+    functions = ["antismash.common.secmet.features.prepeptide:Prepeptide.to_biopython",
+                 FT + "Feature.get_sub_location_from_protein_coordinates",
+                 "antismash.common.secmet.locations:convert_protein_position_to_dna"]
+    bound = ("a precursor gene with 1 or 2 exons or origin-spanning, either strand, symbolic exon boundaries (whole codons in total); "
+             "leader of 0-2, core of 1-2 and tail of 0-1 residues plus free residues in the core so that the lengths fit: the core "
+             "length in residues is symbolic (gene length / 3 - leader - tail)")
+    outside = "more than 2 exons; leader / tail longer than two residues (their lengths only enter as constants)"
+    task_paths = 200
+
+    def variants(self, tier):
+        out = []
+        for shape in ("s", "j2", "o"):
+            for strand in (1, -1):
+                for leader, tail in (("", ""), ("M", ""), ("MA", "C"), ("", "C")):
+                    if tier == "quick" and (leader, tail) in (("M", ""), ("", "C")) and shape != "j2":
+                        continue
+                    out.append({"shape": shape, "strand": strand, "leader": leader, "tail": tail})
+        return out
+
+    def vars(self, var):
+        d = {"n": "int", "t": "int", "k": "int"}
+        d.update(shape_vars("g", var["shape"]))
+        return d
+
+    def pre(self, var, v):
+        parts = model_parts("g", var["shape"], v)
+        c = [shape_pre("g", var["shape"], v, v["n"]), parts_len([(s, e) for s, e in parts]) == 3 * v["k"],
+             v["k"] >= len(var["leader"]) + len(var["tail"]) + 1, 0 <= v["t"]]
+        if var["shape"] == "j2":
+            c.append(v["ge0"] < v["gs1"])
+        return L.And(c)
+
+    def run(self, var, v):
+        from antismash.common.secmet.features import Prepeptide
+        pre = Prepeptide(build("g", var["shape"], v, var["strand"]), "lanthipeptide", "AG", "gene", "lanthipeptides", "Class-II",
+                         15.5, 3000.25, 3010.75, leader=var["leader"], tail=var["tail"])
+        out = {}
+        for feature in pre.to_biopython():
+            section = feature.qualifiers["prepeptide"][0]
+            out[section] = {"parts": canon_loc(feature.location), "strand": feature.location.strand}
+        return out
+
+    def post(self, var, v, out):
+        if is_raised(out):
+            return [("no_raise", False)]
+        n, t, k = v["n"], v["t"], v["k"]
+        gene = biological(model_parts("g", var["shape"], v), var["strand"])
+        nl, nt = len(var["leader"]), len(var["tail"])
+        want_sections = ["core"] + (["leader"] if nl else []) + (["tail"] if nt else [])
+        cl = [("sections_present", sorted(out) == sorted(want_sections))]
+        if sorted(out) != sorted(want_sections):
+            return cl
+        ranges = {"leader": (0, nl), "core": (nl, k - nt), "tail": (k - nt, k)}
+        for section, data in out.items():
+            first, last = ranges[section]
+            res = [(p[0], p[1]) for p in data["parts"]]
+            length = 3 * (last - first)
+            cl += [("well_formed_inside_record", wf_parts(data["parts"], n)),
+                   ("three_bases_per_residue", parts_len(data["parts"]) == length),
+                   ("same_strand", data["strand"] == var["strand"]),
+                   ("covers_the_encoding_bases_in_reading_order",
+                    L.Implies(t < length, coding_pos(res, var["strand"], t) == coding_pos(gene, var["strand"], 3 * first + t)))]
+        return cl
+
+
+HARNESSES = [SubLocation(), TTAMarker(), CodonStart(), PrepeptideParts()]
